@@ -700,8 +700,8 @@ fn resume_case(ctx: &mut Ctx, first: usize, rest_max: u32) {
     }
 }
 
-pub fn subs(tier: Tier) -> Vec<Sub> {
-    let rl: u32 = tier.pick(4, 6);
+pub fn subs(_cli_tier: Tier) -> Vec<Sub> {
+    let rl: u32 = 6; // cheap: thorough bound in both tiers
     vec![
         Sub::new(
             "iterator-clones",
